@@ -24,7 +24,7 @@ Record pst := mkP {
   pl : lbuf;
   povr : ovr;
   parg : option value;          (* p.arg; None = nil *)
-  pval : option value;          (* p.value; None = invalid *)
+  pval : option (value * bool); (* p.value and whether it CanInterface; None = invalid *)
   pf : fst_;                    (* p.fmt: flags, wid, prec *)
   reordered : bool;
   goodArgNum : bool;
@@ -260,8 +260,8 @@ Definition badVerb (rec : recT) (verb : Z) : M unit :=
   match parg s, pval s with
   | Some a, _ =>
     w1 (WS (type_name a)) ;;; wbyte 61 ;;; rec (CPrintArg a 118) ;;; ret tt
-  | None, Some v =>
-    w1 (WS (type_name v)) ;;; wbyte 61 ;;; rec (CPrintValue v 118 0%nat true) ;;; ret tt
+  | None, Some (v, ci) =>
+    w1 (WS (type_name v)) ;;; wbyte 61 ;;; rec (CPrintValue v 118 0%nat ci) ;;; ret tt
   | None, None => wstr "<nil>"
   end ;;;
   wbyte 41 ;;;
@@ -353,8 +353,10 @@ Definition handleMethods (rec : recT) (env : env) (verb0 : Z) : M bool :=
         if iSafeFormatter i then
           catch_panic rec a verb "SafeFormat" (if nr then panic nil_recv_panic else run_acts sc) ;;; ret true
         else if iSafeMessager i then
-          catch_panic rec a verb "SafeMessager"
-            (bracket start_safe_ovr (str <- user_string a ;; fmtString rec env str verb)) ;;; ret true
+          if isv verb "vsxXq" then
+            catch_panic rec a verb "SafeMessager"
+              (bracket start_safe_ovr (str <- user_string a ;; fmtString rec env str verb)) ;;; ret true
+          else std
         else if iError i then
           match hook env with
           | Some h => catch_panic rec a verb "SafeFormatter" (run_acts h) ;;; ret true
@@ -365,7 +367,9 @@ Definition handleMethods (rec : recT) (env : env) (verb0 : Z) : M bool :=
         (* RedactableString/Bytes.SafeFormat: sp.Print(s) *)
         catch_panic rec a verb "SafeFormat" (run_acts [APrint [a]]) ;;; ret true
       | VSafe _ msg =>
-        catch_panic rec a verb "SafeMessager" (bracket start_safe_ovr (fmtString rec env msg verb)) ;;; ret true
+        if isv verb "vsxXq" then
+          catch_panic rec a verb "SafeMessager" (bracket start_safe_ovr (fmtString rec env msg verb)) ;;; ret true
+        else std
       | _ => std
       end
     else std
@@ -484,10 +488,14 @@ Fixpoint print_kind (fuel : nat) (rec : recT) (env : env) (value : value) (verb 
   | VSafe _ _ | VUnsafe _ | VRS _ | VRB _ => miss   (* handled by handleSpecialValues / printArg before *)
   end.
 
+(* value.Field(0) of a wrapper: a slot of type interface{} *)
+Definition iface_field (v : value) : value :=
+  VIface (bs "interface {}") (match v with VNil => None | _ => Some v end).
+
 (* handleSpecialValues + the depth > 0 prologue of printValue *)
 Definition printValue (rec : recT) (env : env) (value : value) (verb : Z) (depth : nat) (ci : bool) : M unit :=
   let kind_part : M unit :=
-    modify (fun s => set_val (set_arg s None) (Some value)) ;;;
+    modify (fun s => set_val (set_arg s None) (Some (value, ci))) ;;;
     print_kind 8 rec env value verb depth ci in
   match depth with
   | O =>
@@ -498,9 +506,9 @@ Definition printValue (rec : recT) (env : env) (value : value) (verb : Z) (depth
   | S _ =>
     match value with
     | VSafe v _ =>
-      bracket start_safe_ovr (rec (CPrintValue (VIface (bs "interface {}") (Some v)) verb (S depth) false) ;;; ret tt)
+      bracket start_safe_ovr (rec (CPrintValue (iface_field v) verb (S depth) false) ;;; ret tt)
     | VUnsafe v =>
-      bracket start_unsafe_ovr (rec (CPrintValue (VIface (bs "interface {}") (Some v)) verb (S depth) false) ;;; ret tt)
+      bracket start_unsafe_ovr (rec (CPrintValue (iface_field v) verb (S depth) false) ;;; ret tt)
     | VRS s0 | VRB s0 => bracket start_prered (w1 (WS s0))
     | _ =>
       bracket_if (is_registered value) start_safe_ovr
